@@ -20,12 +20,12 @@ open Serve
     one `Spec.chainLog` specifies for the chain `Spec.chainOf` selects -/
 theorem C06_log (E : ReEnv) (cfg : Serve.Cfg) (e : Serve.Entry) (w : Serve.World) (sr : Serve.SReq) :
     Spec.c06Holds E cfg e sr (Spec.obsOf (Serve.serve E cfg e w sr)) = true := by
-  have h := Serve.Chain.serve_userEvents E cfg e w sr
+  have h := Serve.Chain.serve_userEvents cfg.customErr E cfg e w sr
   unfold Spec.chainEvents at h
   unfold Spec.c06Holds
   show (match Spec.chainOf E cfg e sr with
-    | none => (Spec.userEvents (Serve.serve E cfg e w sr).log).isEmpty
-    | some (fs, t, cx) => (Spec.userEvents (Serve.serve E cfg e w sr).log).map Spec.blind == (Spec.userEvents (Spec.chainLog fs t cx).1).map Spec.blind) = true
+    | none => (Spec.userEvents cfg.customErr (Serve.serve E cfg e w sr).log).isEmpty
+    | some (fs, t, cx) => (Spec.userEvents cfg.customErr (Serve.serve E cfg e w sr).log).map Spec.blind == (Spec.userEvents cfg.customErr (Spec.chainLog fs t cx).1).map Spec.blind) = true
   rw [h]
   cases Spec.chainOf E cfg e sr with
   | none => rfl
@@ -124,10 +124,10 @@ theorem C06_each_once (fs : List (Serve.Stage × Serve.Filter)) (t : Serve.Targe
 /-- (2)+(1) on the model's log itself, every entry point: when the filter ids are distinct within
     each level (container, each WebService, each route), no stage of user code starts twice or comes
     back twice while one request is served -/
-theorem C06_each_once_served (E : ReEnv) (cfg : Serve.Cfg) (hd : Serve.Chain.DistinctIds cfg) (e : Serve.Entry) (w : Serve.World)
+theorem C06_each_once_served (k : Bool) (E : ReEnv) (cfg : Serve.Cfg) (hd : Serve.Chain.DistinctIds cfg) (e : Serve.Entry) (w : Serve.World)
     (sr : Serve.SReq) :
-    ((Spec.userEvents (Serve.serve E cfg e w sr).log).map (fun ev => (ev.stage, ev.post))).Nodup :=
-  Serve.Chain.serve_nodup E cfg hd e w sr
+    ((Spec.userEvents k (Serve.serve E cfg e w sr).log).map (fun ev => (ev.stage, ev.post))).Nodup :=
+  Serve.Chain.serve_nodup k E cfg hd e w sr
 
 /-- the chains `Spec.chainOf` selects satisfy the label hypotheses of `C06_target_iff` and
     `C06_each_once`: labels are filter stages, the target's is not, and they are pairwise distinct
